@@ -162,15 +162,6 @@ FnThm(e, d) ==
                                  /\ \A j \in 1..(i - 1) : IF name = "max_by" THEN KeyLess(ksO[2][j], ksO[2][i]) ELSE KeyLess(ksO[2][i], ksO[2][j])
                 [] OTHER -> TRUE))
 
-(* C11: the context of an index-decoded expression: same decoding with the L1 element replaced by the hole *)
-CtxAt(gg, i) ==
-  IF i < gg.t1 THEN Hole
-  ELSE IF i < gg.t1 + gg.t2 THEN WrapCode(gg, (i - gg.t1) % gg.sum, Hole)
-  ELSE LET o == (i - gg.t1 - gg.t2) % (gg.sum * gg.sum) IN WrapCode(gg, o % gg.sum, WrapCode(gg, o \div gg.sum, Hole))
-BaseAt(gg, i) ==
-  IF i < gg.t1 THEN gg.l1[i + 1]
-  ELSE IF i < gg.t1 + gg.t2 THEN gg.l1[((i - gg.t1) \div gg.sum) + 1]
-  ELSE gg.l1[((i - gg.t1 - gg.t2) \div (gg.sum * gg.sum)) + 1]
 AlwaysErr == {ErrAbs, ErrUnknown, ErrArity}
 ErrThm(c, x, d) ==
   LET o == Outcomes(Plug(c, x), d) IN
@@ -205,6 +196,14 @@ RoundTrip(e, toks, docs) ==
                      r[1] = "ok" /\ (r[2] = e \/ \A d \in 1..Len(docs) : Outcomes(r[2], docs[d]) = Outcomes(e, docs[d])))
 PrecThm(e, docs) == RoundTrip(e, UnparseMin(e), docs) /\ RoundTrip(e, UnparseFull(e), docs) /\ RoundTrip(e, UnparseSt(e, StQuoted), docs)
 
+(* C15: referential transparency: a sub-expression evaluated against the root document can be replaced by a
+   literal of its value (when that value is deterministic JSON); the pipe law is the Pipe clause of Outcomes *)
+SubstThm(c, x, d) ==
+  LET o == Outcomes(x, d) IN
+  (Det(o) /\ \A y \in o : y[1] = "ok" /\ IsJSON(y[2]) /\ ~HasOpaque(y[2])) =>
+      Outcomes(Plug(c, x), d) = Outcomes(Plug(c, Lit(TheOk(o))), d)
+PipeLaw(a, b, d) == Outcomes(Pipe(a, b), d) = Bind(Outcomes(a, d), LAMBDA v : Outcomes(b, v))
+
 Thm(e, d) == CASE Family = "C01" -> CoreThm(e, d)
                [] Family \in {"C08", "C08i"} -> SliceThm(e, d)
                [] Family = "C02" -> ProjThm(e, d)
@@ -214,6 +213,8 @@ Thm(e, d) == CASE Family = "C01" -> CoreThm(e, d)
 
 Holds == idx >= 0 =>
            IF Family = "C11" THEN LET c == CtxAt(g, idx) x == BaseAt(g, idx) IN \A d \in 1..Len(g.docs) : ErrThm(c, x, g.docs[d])
+           ELSE IF Family = "C15" THEN LET c == CtxAt(g, idx) x == BaseAt(g, idx) IN
+                  \A d \in 1..Len(g.docs) : SubstThm(c, x, g.docs[d]) /\ PipeLaw(x, g.l1[(idx % g.n1) + 1], g.docs[d])
            ELSE IF Family = "C03" THEN PrecThm(ExprAt(g, idx), g.docs)
            ELSE LET e == ExprAt(g, idx) IN \A d \in 1..Len(g.docs) : Thm(e, g.docs[d])
 =============================================================================
